@@ -20,8 +20,9 @@
 (* in check mode, state after fix = Repaired, immediate re-check reports   *)
 (* exactly the unfixable ones.                                             *)
 (* Features: unique index on name, nullable unique index on nick, set      *)
-(* index on roles, nullable fk index boss -> people (back-references),     *)
-(* link collection people.teams <-> teams.members.                         *)
+(* index on roles, boss -> people as nullable fk index (back-references)   *)
+(* or as nullable fk constraint (no back-references: only dangling         *)
+(* references can be wrong), link collection people.teams <-> teams.members *)
 (***************************************************************************)
 EXTENDS Store, Json
 
@@ -36,7 +37,9 @@ NameOf(d) == [i \in Ids |-> IF Present(d, i) THEN d.ent[i].name ELSE NIL]
 NickOf(d) == [i \in Ids |-> IF Present(d, i) THEN d.ent[i].nick ELSE NIL]
 Holders(fld, v) == {i \in Ids : fld[i] = v /\ ~NoVal(v)}
 DerSRoles(d) == [r \in Roles |-> {i \in Ids : Present(d, i) /\ r \in d.ent[i].roles}]
-DerBack(d) == [t \in Ids |-> {i \in Ids : Present(d, i) /\ Present(d, t) /\ d.ent[i].boss = t}]
+\* (a reference wired as a constraint -- BossMode conNoneNull -- keeps no back-references: nothing to derive, nothing to check)
+BossIndexed == FkKind(BossMode) = "index"
+DerBack(d) == [t \in Ids |-> IF BossIndexed THEN {i \in Ids : Present(d, i) /\ Present(d, t) /\ d.ent[i].boss = t} ELSE {}]
 
 \* ---- atomic inconsistencies
 UniqFacts(idx, fld, name) ==
@@ -106,8 +109,8 @@ Corruptions(d) ==
   \cup {[c |-> "sDel", r |-> x[1], id |-> x[2]] : x \in {y \in (Roles \ {""}) \X Ids : y[2] \in d.sRoles[y[1]]}}
   \cup {[c |-> "sAdd", r |-> x[1], id |-> x[2]] : x \in {y \in (Roles \ {""}) \X Ids : y[2] \notin d.sRoles[y[1]]}}
   \cup {[c |-> "sKey", r |-> r] : r \in {q \in Roles \ {""} : q \notin d.sKeys}}
-  \cup {[c |-> "bDel", t |-> x[1], id |-> x[2]] : x \in {y \in PresentIds(d) \X Ids : y[2] \in d.backBoss[y[1]]}}
-  \cup {[c |-> "bAdd", t |-> x[1], id |-> x[2]] : x \in {y \in PresentIds(d) \X Ids : y[2] \notin d.backBoss[y[1]]}}
+  \cup {[c |-> "bDel", t |-> x[1], id |-> x[2]] : x \in {y \in PresentIds(d) \X Ids : BossIndexed /\ y[2] \in d.backBoss[y[1]]}}
+  \cup {[c |-> "bAdd", t |-> x[1], id |-> x[2]] : x \in {y \in PresentIds(d) \X Ids : BossIndexed /\ y[2] \notin d.backBoss[y[1]]}}
   \cup {[c |-> "fkSet", id |-> x[1], t |-> x[2]] : x \in {y \in PresentIds(d) \X Ids : ~Present(d, y[2])}}
   \cup {[c |-> "lAddP", p |-> x[1], t |-> x[2]] : x \in {y \in PresentIds(d) \X Teams : y[2] \notin d.lnkPT[y[1]]}}
   \cup {[c |-> "lDelP", p |-> x[1], t |-> x[2]] : x \in {y \in PresentIds(d) \X Teams : y[2] \in d.lnkPT[y[1]]}}
